@@ -51,7 +51,7 @@ ISA = {
     'operand_sets': {},
     'instructions': {'nop': {'bytecode': {'value': 0xEA, 'size': 8}}},
 }
-SYMS = ['SYA', 'SYB', 'SYC', 'DEBUG', 'LEVEL']
+SYMS = ['SYA', 'SYB', 'SYC', 'DEBUG', 'LEVEL', 'level', 'flag', 'idx', 'ena']      # lower-case names are names too
 NAMES = ['la', 'lb', 'lc', 'ld_', 'le']
 CONSTS = ['ka', 'kb', 'kc']
 ZONES = ['ZA', 'ZB', 'ZC']
